@@ -336,7 +336,7 @@ func main() {
 					dup = true
 				}
 			}
-			if !dup && len(sum.Violations) < 8 {
+			if !dup && len(sum.Violations) < 40 {
 				if strings.HasPrefix(os.Getenv("VERIF_NOMIN"), "1") {
 					sum.Violations = append(sum.Violations, r)
 				} else {
